@@ -12,6 +12,7 @@ from .values import (
     Blk,
     ColDigitsV,
     CondV,
+    RecV,
     EnumV,
     ExcV,
     Lit,
@@ -189,7 +190,41 @@ def ite(ex, c, a, b):
             return SeqV.of("tuple", [ite(ex, c, x, y) for x, y in zip(ia, ib)])
     if a is b:
         return a
+    if isinstance(a, SeqV) and isinstance(b, SeqV) and a.kind == b.kind:
+        na, nb = seq_len(a), seq_len(b)
+        ca, cb = a.copy(), b.copy()
+        n = z3.simplify(z3.If(c, term(na, "int"), term(nb, "int")))
+
+        def at(i, ca=ca, cb=cb, na=na, nb=nb):
+            # the element is read only where the index is within the chosen branch's range
+            ea = _safe_get(ex, ca, i, na)
+            eb = _safe_get(ex, cb, i, nb)
+            if ea is None:
+                return eb
+            if eb is None:
+                return ea
+            return ite(ex, c, ea, eb)
+
+        if z3.is_int_value(n):
+            return SeqV.of(a.kind, [at(i) for i in range(n.as_long())], a.dtype)
+        return SeqV(a.kind, [Blk(n, at)], a.dtype)
     return CondV(c, a, b)
+
+
+def _safe_get(ex, seq, i, n):
+    if isinstance(n, int) and n == 0:
+        return None
+    if isinstance(n, int) and isinstance(i, int) and i >= n:
+        return None
+    if isinstance(n, int) and not isinstance(i, int):
+        # clamp a symbolic index into a concrete-length sequence
+        it = term(i, "int")
+        items = seq.concrete_items()
+        res = items[-1]
+        for k in range(len(items) - 2, -1, -1):
+            res = ite(ex, it == k, items[k], res)
+        return res
+    return seq_get(ex, seq, _ix(i) if not isinstance(i, (int, Sym)) else i)
 
 
 def _is_boolish(v):
@@ -271,7 +306,19 @@ def binop(ex, op, a, b):
                     raise Unsupported("floor division by a possibly negative symbolic divisor")
             ta = term(a, "int")
             return mk_num(ta / tb if op == "//" else ta % tb, "int", np)
-        raise Unsupported("floor division of reals")
+        # float floor division: floor(a / b) as a float (b > 0 only)
+        from .lib import ceil_of_quotient
+
+        if ex.pure == 0:
+            tb = term(b, "real")
+            if ex.p.branch(tb == 0, "div0"):
+                _raise("ZeroDivisionError")
+            if ex.p.branch(tb < 0, "negdiv"):
+                raise Unsupported("float floor division by a possibly negative divisor")
+        k = ceil_of_quotient(ex, a, b, "floor")
+        if op == "//":
+            return Sym(z3.ToReal(k.t), "real", np)
+        return mk_num(term(a, "real") - z3.ToReal(k.t) * term(b, "real"), "real", np)
     if op == "<<":
         if ka == "int" and kb == "int":
             return mk_num(term(a, "int") * pow2_term(term(b, "int")), "int")
@@ -503,6 +550,8 @@ def lift_raw(v):
 def equals(ex, a, b):
     """Python == for non-array values -> host bool or Sym bool."""
     a, b = lift_raw(a), lift_raw(b)
+    if isinstance(a, RecV) or isinstance(b, RecV):
+        return record_equal(ex, a, b)
     if isinstance(a, CondV):
         return mk_bool(z3.If(a.c, zbool(unwrap_bool(equals(ex, a.a, b))), zbool(unwrap_bool(equals(ex, a.b, b)))))
     if isinstance(b, CondV):
@@ -1249,3 +1298,86 @@ def dict_comprehension(ex, node, fr):
     from . import lib
 
     return lib.dict_comprehension(ex, node, fr)
+
+
+# ----------------------------------------------------------------------------- records as ropes
+
+
+def _flatten_concat(t, out):
+    if z3.is_app(t) and t.decl().kind() == z3.Z3_OP_SEQ_CONCAT:
+        for c in t.children():
+            _flatten_concat(c, out)
+    else:
+        out.append(t)
+
+
+def rope_fields(t):
+    """Split a string term at the ';' characters of its literal pieces -> list of fields (each a list of pieces)."""
+    pieces = []
+    _flatten_concat(t, pieces)
+    fields = [[]]
+    for p in pieces:
+        if z3.is_string_value(p):
+            parts = p.as_string().split(";")
+            for k, part in enumerate(parts):
+                if k > 0:
+                    fields.append([])
+                if part:
+                    fields[-1].append(z3.StringVal(part))
+        else:
+            fields[-1].append(p)
+    return fields
+
+
+def _field_term(pieces):
+    if not pieces:
+        return z3.StringVal("")
+    if len(pieces) == 1:
+        return pieces[0]
+    return z3.Concat(*pieces)
+
+
+_INJECTIVE = ("istr", "rstr", "wellstr")
+
+
+def field_equal(a, b):
+    """equality of two field terms, using injectivity of the number printers"""
+    if z3.is_app(a) and z3.is_app(b) and a.decl().kind() == z3.Z3_OP_UNINTERPRETED and b.decl().kind() == z3.Z3_OP_UNINTERPRETED \
+            and a.decl().name() == b.decl().name() and a.decl().name() in _INJECTIVE:
+        return z3.And(*[x == y for x, y in zip(a.children(), b.children())])
+    if z3.is_app(a) and a.decl().kind() == z3.Z3_OP_ITE and z3.is_app(b) and b.decl().kind() == z3.Z3_OP_ITE:
+        ca, a1, a2 = a.children()
+        cb, b1, b2 = b.children()
+        if z3.eq(ca, cb):
+            return z3.If(ca, field_equal(a1, b1), field_equal(a2, b2))
+    return a == b
+
+
+def record_equal(ex, a, b):
+    """a record string (rope built by the code) against a spec record: field-wise equality, which implies equality
+    of the strings (and is equivalent to it when the fields are separator-free)."""
+    if isinstance(a, RecV) and isinstance(b, RecV):
+        if a.kind != b.kind or len(a.fields) != len(b.fields):
+            return False
+        return mk_bool(z3.And(*[field_equal(term(x), term(y)) for x, y in zip(a.fields, b.fields)]))
+    rec, s = (a, b) if isinstance(a, RecV) else (b, a)
+    if isinstance(s, str):
+        st = z3.StringVal(s)
+    elif isinstance(s, Sym) and s.ty == "str":
+        st = s.t
+    else:
+        return False
+    fields = rope_fields(st)
+    want = [z3.StringVal(rec.kind)] + [term(f) for f in rec.fields]
+    if len(fields) != len(want):
+        # different number of separators in the literal skeleton: fall back to plain string equality
+        return mk_bool(st == record_string(rec))
+    return mk_bool(z3.And(*[field_equal(_field_term(f), w) for f, w in zip(fields, want)]))
+
+
+def record_string(rec):
+    parts = [z3.StringVal(rec.kind)]
+    for f in rec.fields:
+        parts.append(z3.StringVal(";"))
+        parts.append(term(f))
+    return z3.Concat(*parts)
